@@ -400,7 +400,8 @@ def r4(ctx, chk):
     want = [(["time", "day"], "'day'"), (["month", "year"], "<loop variable>")]
     chk.ob(rule, "_get_period: day if a time or day is present, else month, else year", seq == want, "got %s" % seq,
            key={"function": f.key, "construct": "period order"}, file=f.file, function=f.qual, line=f.node.lineno)
-    first = f.node.body[0]
+    stmts = [s_ for s_ in f.node.body if not (isinstance(s_, ast.Expr) and isinstance(s_.value, ast.Constant))]
+    first = stmts[0] if stmts else None
     ok = isinstance(first, ast.If) and "RETURN_TIME_AS_PERIOD" in ast.unparse(first.test) and "'time'" in ast.unparse(first)
     chk.ob(rule, "_get_period: 'time' only when RETURN_TIME_AS_PERIOD and a clock time is present", ok, "",
            key={"function": f.key, "construct": "time period"}, file=f.file, function=f.qual, line=f.node.lineno)
